@@ -246,7 +246,8 @@ def mutant_class(rule, orig_fn, path):
     return (kind, 'stmt')
 
 
-SILENT = {'missing-return': 'no-return-path-check', 'out-of-scope': 'block-scope-not-popped', 'other-fn-local': 'function-scope-not-popped'}
+SILENT = {'missing-return': 'no-return-path-check', 'out-of-scope': 'block-scope-not-popped', 'other-fn-local': 'function-scope-not-popped',
+          'out-of-scope-return': 'block-scope-not-popped', 'out-of-scope-break': 'block-scope-not-popped', 'out-of-scope-continue': 'block-scope-not-popped'}
 CHECKED_STMT = ('let', 'set', 'ret', 'if', 'while', 'assert')
 OP_ABSORB = {'order': 'order-operands-unchecked', 'equality': 'equality-operands-unchecked', 'logic': 'logic-operands-unchecked',
              'not': 'not-operand-unchecked'}
